@@ -849,16 +849,30 @@ class _StubDoc:
 
 
 def parse_stream_at(buf: bytes, pos: int):
-    """Run the real PDFParser on `buf` from `pos` (start of `<< ... >> stream`); returns (dict, rawdata)."""
+    """Run the real PDFParser on `buf` from `pos` (start of `<< ... >> stream`); returns (dict, rawdata)
+    of the first stream object the `stream` branch of do_keyword pushes; PSEOF when it pushes none."""
     from pdfminer.pdfparser import PDFParser
     from pdfminer.pdftypes import PDFStream
-    p = PDFParser(io.BytesIO(buf))
+    from pdfminer.psexceptions import PSEOF
+    captured = []
+
+    class Capture(PDFParser):
+        def push(self, *objs):
+            for o in objs:
+                if isinstance(o, tuple) and len(o) == 2 and isinstance(o[1], PDFStream):
+                    captured.append(o[1])
+            PDFParser.push(self, *objs)
+
+    p = Capture(io.BytesIO(buf))
     p.set_document(_StubDoc())  # type: ignore[arg-type]
     p.seek(pos)
-    (_, obj) = p.nextobject()
-    if not isinstance(obj, PDFStream):
-        raise TypeError("not a stream")
-    return obj.attrs, obj.get_rawdata()
+    try:
+        p.nextobject()
+    except PSEOF:
+        pass
+    if not captured:
+        raise PSEOF("no stream object")
+    return captured[0].attrs, captured[0].get_rawdata()
 
 
 def run_chains(ctx) -> None:
@@ -965,6 +979,9 @@ def run_chains(ctx) -> None:
         payload = gen_payload(rng, 40)
         ln = rng.choice([len(payload), len(payload), 0, len(payload) + rng.randint(1, 30), max(0, len(payload) - 1)])
         eol = rng.choice([b"\n", b"\r\n", b"\r", b"", b" \n", b"\r\r", b"\n\n", b" "])
+        if eol in (b"", b" ") and payload[:1] not in (b"\r", b"\n"):
+            # `stream` must be a complete keyword token and the line must end inside the file
+            eol = b" \r\n" if eol == b" " else b"\n"
         tail = rng.choice([b"\nendstream\nendobj\n", b"endstream endobj", b"\r\nendstream\r\n", b"", b"\n", b"endstrea"])
         head = b"5 0 obj\n"
         dic = b"<</Length %d>>" % ln + rng.choice([b"\n", b" ", b"", b"\r\n"])
@@ -975,6 +992,7 @@ def run_chains(ctx) -> None:
         try:
             got = "B " + hx(parse_stream_at(buf, len(head))[1])
         except Exception as e:  # noqa: BLE001
+            # no stream object is produced (do_keyword returns on PSEOF; the caller then runs out of input)
             got = "E " + type(e).__name__
         batch.add(f"stream {spos} {ln} {hx(buf)}", got, {"op": "stream-wild"})
         ctx.case(("streamwild", buf, ln), True, branch="streamwild:" + (got[2:] if got.startswith("E") else "ok"))
